@@ -339,7 +339,7 @@ def stepTok (m : Sim) (tok : String) : Sim :=
         | _ => m
       else m
     | none => m
-  else m   -- H and W: ordinary traffic / a response nobody waits for: no effect on the commands
+  else m   -- H, W and V: ordinary traffic / a (general or dedicated) response nobody waits for: no effect on the commands
 
 def showResult (s : St) (r : Nat) : String :=
   match s.place r with
